@@ -77,6 +77,9 @@ public:
    * @brief From AbstractParametrizable interface
    */
   void fireParameterChanged(const ParameterList& parameters);
+
+private:
+  void update_() const;
 };
 } // end of namespace bpp
 #endif // BPP_NUMERIC_HMM_FULLHMMTRANSITIONMATRIX_H
